@@ -294,7 +294,8 @@ class C03(Plugin):
                           'elems': [rng.choice(pool)], 'entry': rng.choice(OPT_PUT_ENTRIES)}
                     if cur is None and op['entry'] == 'replace':
                         op['entry'] = 'put'
-        if op is None and rng.random() < 0.12:
+        focus = cfg.get('focus_cls')
+        if op is None and rng.random() < (0.5 if focus in ('Call', 'ClassDef', 'Dict', 'MatchClass') and str(cfg.get('focus_field')).startswith('_') else 0.12):
             op = self.gen_virt(rng)
             if op is not None:
                 if rng.random() < cfg['p_twin']:
@@ -306,6 +307,9 @@ class C03(Plugin):
             cs = containers(tree)
             if not cs:
                 return None
+            if focus and rng.random() < 0.7:
+                cs = [c for c in cs if c[1].__class__.__name__ == focus
+                      and (cfg.get('focus_field') in (None, c[2]) or rng.random() < 0.3)] or cs
             path, node, field, kind, mn = rng.choice(cs)
             lst = getattr(node, field)
             n = len(lst)
@@ -908,8 +912,8 @@ class C03(Plugin):
 # ======================================================================================================================
 # virtual combined fields (_args, _bases, _attrs, Dict._all, _body): the model is the merged, source-ordered item list
 
-VIRT_POS = {'call': ['x', 'f(y)', '1', 'x.y', '[x]'], 'pattern': ['x', '1', '[x, y]', 'C()', '"s"']}
-VIRT_KW = {'call': ['k=1', 'z=w', 'kk=f(y)'], 'pattern': ['c=d', 'k=1', 'kk=[x]']}
+VIRT_POS = {'call': ['x', 'f(y)', '1', 'x.y', '[x]', '*s', '*t.u'], 'pattern': ['x', '1', '[x, y]', 'C()', '"s"']}
+VIRT_KW = {'call': ['k=1', 'z=w', 'kk=f(y)', '**d', 'k2=v'], 'pattern': ['c=d', 'k=1', 'kk=[x]']}
 DICT_ITEMS = ['k: v', '1: x', '"s": f(y)', '**d', 'x.y: z']
 
 
@@ -924,10 +928,9 @@ def virt_containers(tree):
     for path, node, parent, field, idx in iter_paths(tree):
         if id(node) in in_fstr:
             continue
-        if isinstance(node, ast.Call) and not any(isinstance(a, (ast.Starred, ast.GeneratorExp)) for a in node.args) \
-                and all(k.arg is not None for k in node.keywords):
+        if isinstance(node, ast.Call) and not any(isinstance(a, ast.GeneratorExp) for a in node.args):
             out.append((path, node, '_args', 'call'))
-        elif isinstance(node, ast.ClassDef) and not any(isinstance(a, ast.Starred) for a in node.bases) and all(k.arg is not None for k in node.keywords):
+        elif isinstance(node, ast.ClassDef):
             out.append((path, node, '_bases', 'call'))
         elif isinstance(node, ast.MatchClass):
             out.append((path, node, '_attrs', 'pattern'))
@@ -976,17 +979,23 @@ def virt_store(node, field, items):
 
 
 def virt_valid(field, items):
-    """Positional items must all precede keyword items (then the result is valid and its placement unambiguous)."""
+    """Python's own ordering rules for arguments / bases / class-pattern arguments: a plain positional item may not
+    follow any keyword item, a '*x' item may follow 'k=v' items but not a '**d' item, keyword names are unique."""
     if field == '_all':
         return True
-    seen_kw = False
+    seen_kw = seen_dstar = False
     names = set()
     for it in items:
         if it[0] == 'kw':
             seen_kw = True
-            if it[1] in names:
+            if it[1] is None:
+                seen_dstar = True
+            elif it[1] in names:
                 return False
             names.add(it[1])
+        elif isinstance(it[1], ast.Starred):
+            if seen_dstar:
+                return False
         elif seen_kw:
             return False
     return True
@@ -1001,6 +1010,8 @@ class _VirtMixin:
         cs = virt_containers(tree)
         if not cs:
             return None
+        if self.run.cfg.get('focus_cls') and rng.random() < 0.7:
+            cs = [c for c in cs if c[1].__class__.__name__ == self.run.cfg['focus_cls']] or cs
         path, node, field, flavour = rng.choice(cs)
         items = virt_items(node, field)
         n = len(items)
@@ -1046,7 +1057,7 @@ class _VirtMixin:
             return None
         if op['field'] == '_attrs' or op['flavour'] == 'pattern':
             pass
-        if op['field'] in ('_args', '_bases') and len({it[1] for it in items if it[0] == 'kw'}) != sum(1 for it in items if it[0] == 'kw'):
+        if op['field'] in ('_args', '_bases') and len({it[1] for it in items if it[0] == 'kw' and it[1]}) != sum(1 for it in items if it[0] == 'kw' and it[1]):
             return None
         virt_store(node, op['field'], items)
         return exp
